@@ -347,6 +347,10 @@ class Interp:
         made = None
         if k == 'MethodCall' and cal in ('core::slice::<impl [T]>::first', 'core::slice::<impl [T]>::last') and not e['args']:
             made = self.elem_ref_source(e['recv'], st)
+        elif k == 'MethodCall' and cal is not None and (cal == 'core::iter::traits::iterator::Iterator::last' or cal.endswith(' as core::iter::traits::iterator::Iterator>::last')) and not e['args'] and e['recv']['k'] == 'MethodCall' \
+                and callee_of(e['recv']) == 'core::slice::<impl [T]>::iter' and not e['recv']['args']:
+            # v.iter().last(): the last item of the slice iterator, i.e. a reference to the last element (None when there is none)
+            made = self.elem_ref_source(e['recv']['recv'], st)
         res = []
         for o in outs:
             if o.kind != 'val' or (made is None and not has_place(o.val)):
@@ -511,8 +515,13 @@ class Interp:
         return outs + abn
 
     def ev_AddrOf(self, e, st):
-        outs = self.ev(e['e'], st)
         inner = e['e']
+        if self.elem_refs and not e.get('mut') and inner['k'] == 'Unary' and inner.get('op') == 'Deref' and (inner['e'].get('ty') or '').startswith('&') \
+                and inner['e'].get('ty') == e.get('ty'):
+            # `&*r` of a shared reference r, at r's own type: a reborrow - the same address (the built-in dereference of a reference,
+            # no Deref impl involved), so r's position mark stays; any other `&expr` is evaluated as usual and loses it
+            return self.ev(inner['e'], st)
+        outs = self.ev(e['e'], st)
         if e.get('mut') and not self.places and inner.get('k') == 'Path' and inner.get('res') == 'local' and st.env.get(inner['bind'], ('unk',))[0] in TRACKED_VEC:
             # `&mut v` of a local whose elements are tracked is handed to code without a model (the modelled uses - encode_into,
             # mem::take / replace - are intercepted before their arguments are evaluated; with `places` the reference names the
